@@ -4,11 +4,13 @@ import RedisVerif.Model.WalActor
 
 /-
   C09 sub-driver.  One line = one workload:
-    G <fix 0|1> <tickSyncs 0|1> <format 1|2> <reuseSeq 0|1> <maxSize> <maxEntries> K <nincarnations>
+    G | GP <policy a|e|n>  (G = Always)
+      <fix 0|1> <tickSyncs 0|1> <format 1|2> <reuseSeq 0|1> <maxSize> <maxEntries> K <nincarnations>
       { F <nf> {<callIndex> <ok|fail|full|torn:K>}* D <deadFrom|->
         W <ngroups> {<nmsgs> {w <id> <ts> <hex> | f <id> <ts> <hex> | t | x <T>}*}*
         E <c|s|e> }*
-  (w = write_durable, f = write_fire_and_forget, t = sync_tick, x = truncate(T); D k = every I/O call
+  (w = write_durable, c = write_durable whose caller is cancelled while it waits (its ack is not printed),
+   f = write_fire_and_forget, s = shutdown() sent as a message of the burst, t = sync_tick, x = truncate(T); D k = every I/O call
    with index >= k of this incarnation fails, i.e. the machine is dying from call k on;
    E c = machine crash then restart, E s = clean shutdown then restart, E e = end of the history)
   Output: the acks (sorted by id), the I/O call trace, and for EVERY crash index t (after t
@@ -56,10 +58,15 @@ def showCall : Call → String
 structure Inc where
   faults : List (Nat × Outcome)
   dead : Option Nat
-  groups : List (List Ev)
+  groups : List (List Msg)
   ending : String
 
 structure Workload where
+  policy : Policy := .always
+  /-- ids of `write_durable` callers that were cancelled while waiting: the actor answers, nobody hears -/
+  cancelled : List Nat := []
+  /-- `GQ`: the acks are not observable (production path: `ReplicatedShardedState::execute` only logs them) -/
+  noAcks : Bool := false
   fix : Bool
   tick : Bool
   fmt : Format
@@ -68,13 +75,18 @@ structure Workload where
   maxEntries : Nat
   incs : List Inc
 
-def msgP : P Ev := do
+/-- one message; `xl` (a truncate whose `store.list()` fails: the actor logs the error and does
+    nothing) is no event at all -/
+def msgP : P (List Msg) := do
   let k ← tok
   match k with
-  | "w" => do let id ← nat; let ts ← nat; let d ← bytesTok; pure (Ev.write ⟨id, d, ts⟩)
-  | "f" => do let id ← nat; let ts ← nat; let d ← bytesTok; pure (Ev.forget ⟨id, d, ts⟩)
-  | "t" => pure Ev.tick
-  | "x" => do let T ← nat; pure (Ev.truncate T)
+  | "w" => do let id ← nat; let ts ← nat; let d ← bytesTok; pure [.ev (Ev.write ⟨id, d, ts⟩)]
+  | "c" => do let id ← nat; let ts ← nat; let d ← bytesTok; pure [.ev (Ev.write ⟨id, d, ts⟩)]
+  | "f" => do let id ← nat; let ts ← nat; let d ← bytesTok; pure [.ev (Ev.forget ⟨id, d, ts⟩)]
+  | "t" => pure [.ev Ev.tick]
+  | "x" => do let T ← nat; pure [.ev (Ev.truncate T)]
+  | "xl" => pure [.noop]
+  | "s" => pure [.shutdown]
   | _ => failure
 
 def incP : P Inc := do
@@ -85,13 +97,28 @@ def incP : P Inc := do
   let d ← optNat
   expect "W"
   let ng ← nat
-  let gs ← repeatP ng (do let nw ← nat; repeatP nw msgP)
+  let gs ← repeatP ng (do let nw ← nat; let ms ← repeatP nw msgP; pure ms.flatten)
   expect "E"
   let e ← tok
   pure ⟨fs, d, gs, e⟩
 
+def policyP : P Policy := do
+  let t ← tok
+  match t with
+  | "a" => pure .always
+  | "e" => pure .everySecond
+  | "n" => pure .no
+  | _ => failure
+
+/-- ids of the cancelled callers (`c <id> …` messages) of a line -/
+def cancelledIds : List String → List Nat
+  | "c" :: id :: rest => (match id.toNat? with | some n => [n] | none => []) ++ cancelledIds rest
+  | _ :: rest => cancelledIds rest
+  | [] => []
+
 def workloadP : P Workload := do
-  expect "G"
+  let g ← tok
+  let pol ← (if g == "G" then pure Policy.always else if g == "GP" || g == "GQ" then policyP else failure : P Policy)
   let f ← nat
   let tk ← nat
   let v ← nat
@@ -101,7 +128,8 @@ def workloadP : P Workload := do
   expect "K"
   let k ← nat
   let incs ← repeatP k incP
-  pure ⟨f != 0, tk != 0, if v = 1 then .v1 else .v2, ru != 0, ms, me, incs⟩
+  pure { policy := pol, noAcks := g == "GQ", fix := f != 0, tick := tk != 0, fmt := if v = 1 then .v1 else .v2, reuse := ru != 0,
+         maxSize := ms, maxEntries := me, incs := incs }
 
 def oracleOf (fs : List (Nat × Outcome)) (dead : Option Nat) (i : Nat) : Outcome :=
   match dead with
@@ -124,23 +152,77 @@ def idOf (ws : List Write) (e : Entry) : String :=
   | some w => toString w.id
   | none => "?"
 
-def runInc (wl : Workload) (a : Actor) (inc : Inc) : Actor :=
+/-- the schedule of `run_always_mode` is the MODEL's `Sched.step` / `Sched.endBurst`
+    (Model/WalActor.lean; theorem `durable_survives_bursts`) for the current rotator; the two
+    historical variants of the rotator / tick (`fix = false`, `tickSyncs = true`) keep the plain
+    burst schedule `Actor.runGroup` (they never see `Shutdown` / `noop` messages) -/
+def idsOfMsg : Msg → List Nat := Msg.ids
+
+def schedNow (pol : Policy) (wl : Workload) (φ : Nat → Outcome) (s : Sched) (m : Msg) : Sched :=
+  if !s.alive then { s with dropped := s.dropped ++ idsOfMsg m } else
+  match m with
+  | .shutdown => { s with a := if pol = .everySecond then Actor.tickEverySec φ s.a else s.a, alive := false }
+  | .noop => s
+  | .ev e => { s with a := Actor.stepP pol φ wl.fmt crc s.a e }
+
+def runInc (wl : Workload) (st : Actor × List Nat) (inc : Inc) : Actor × List Nat :=
   let φ := oracleOf inc.faults inc.dead
-  let a1 := inc.groups.foldl (Actor.runGroup wl.fix wl.tick φ wl.fmt crc wl.maxEntries) a
-  match inc.ending with
-  | "c" => Actor.step wl.fix wl.tick φ wl.fmt crc a1 (.reopen true wl.reuse)
-  | "s" => Actor.step wl.fix wl.tick φ wl.fmt crc a1 (.reopen false wl.reuse)
-  | _ => a1
+  let (a, dropped0) := st
+  match wl.policy with
+  | .always =>
+    let evsOf := fun (g : List Msg) => g.filterMap (fun m => match m with | .ev e => some e | _ => none)
+    let s1 : Sched :=
+      if wl.fix && !wl.tick then Sched.runBursts wl.maxEntries φ wl.fmt crc { a := a } inc.groups
+      else { a := inc.groups.foldl (fun a g => Actor.runGroup wl.fix wl.tick φ wl.fmt crc wl.maxEntries a (evsOf g)) a }
+    let a1 := s1.a
+    (match inc.ending with
+    | "c" => Actor.step wl.fix wl.tick φ wl.fmt crc a1 (.reopen true wl.reuse)
+    | "s" => Actor.step wl.fix wl.tick φ wl.fmt crc a1 (.reopen false wl.reuse)
+    | _ => a1, dropped0 ++ s1.dropped)
+  | pol =>
+    -- EverySecond / No: one message after the other, no group commit; the harness ends the last
+    -- incarnation with `shutdown()` (EverySecond: one more sync if anything is unsynced)
+    let s1 := inc.groups.flatten.foldl (schedNow pol wl φ) ({ a := a } : Sched)
+    let a1 := s1.a
+    (match inc.ending with
+    | "c" => Actor.stepP pol φ wl.fmt crc a1 (.reopen true wl.reuse)
+    | "s" => if s1.alive then Actor.stepP pol φ wl.fmt crc a1 (.reopen false wl.reuse)
+             else Actor.stepP .no φ wl.fmt crc a1 (.reopen false wl.reuse)
+    | _ => if pol = .everySecond && s1.alive then Actor.tickEverySec φ a1 else a1, dropped0 ++ s1.dropped)
+
+def showPolicy : Policy → String
+  | .always => "a" | .everySecond => "e" | .no => "n"
+
+def showConfig (c : Config) : String :=
+  s!"enabled={if c.enabled then 1 else 0} policy={showPolicy c.policy} max_file_size={c.maxFileSize} max_entries={c.maxEntries} max_wait_us={c.maxWaitUs} trunc_interval_ms={c.truncIntervalMs}"
+
+/-- `CFG <constructor>` → the fields the constructor produces; `CFGP <serde name>` → the policy a
+    configuration file selects with that name -/
+def cfgStep? : List String → Option String
+  | ["CFG", "default"] => some (showConfig Config.default)
+  | ["CFG", "test"] => some (showConfig Config.test)
+  | ["CFG", "always_fsync"] => some (showConfig Config.alwaysFsync)
+  | ["CFG", "every_second"] => some (showConfig Config.everySecondCfg)
+  | ["CFG", _] => some "unknown-constructor"
+  | ["CFGP", n] => some (match Policy.ofName n with | some p => showPolicy p | none => "err")
+  | _ => none
 
 def step (line : String) : String :=
+  match cfgStep? (tokens line) with
+  | some o => o
+  | none =>
   match runP workloadP line with
   | none => "bad-op"
-  | some wl =>
-    let a := wl.incs.foldl (runInc wl) (Actor.init wl.maxSize)
+  | some wl0 =>
+    let wl := { wl0 with cancelled := cancelledIds (tokens line) }
+    let (a, dropped) := wl.incs.foldl (runInc wl) (Actor.init wl.maxSize, [])
     let ws := (wl.incs.flatMap (fun i => i.groups.flatten)).filterMap
-      (fun ev => match ev with | .write w => some w | .forget w => some w | _ => none)
-    let acks := a.acks.foldl (fun acc x => insertAck x acc) []
-    let acksS := " ".intercalate (acks.map (fun x => s!"{x.id}={showAck x.res}"))
+      (fun m => match m with | .ev (.write w) => some w | .ev (.forget w) => some w | _ => none)
+    -- callers whose message was never handled (the actor had stopped): an I/O error, no entry
+    let droppedAcks : List AckRec := (dropped.filter (fun i => !wl.cancelled.contains i)).map
+      (fun i => ⟨i, ⟨[], 0, 0⟩, .err .io, 0⟩)
+    let acks := ((a.acks.filter (fun x => !wl.cancelled.contains x.id)) ++ droppedAcks).foldl (fun acc x => insertAck x acc) []
+    let acksS := if wl.noAcks then "-" else " ".intercalate (acks.map (fun x => s!"{x.id}={showAck x.res}"))
     let traceS := " ".intercalate (a.rot.w.trace.reverse.map showCall)
     let crashS := " ; ".intercalate (a.rot.w.hist.reverse.map (fun st =>
       " ".intercalate ((durable wl.fmt crc st).map (idOf ws))))
